@@ -55,6 +55,10 @@ def fillers(r, n, scope, plain_first=False):
         else:
             t = r.choice(['gi = %d + %d;', 'if (gj == %d) gi = %d;', '{ int q_%d = %d; gj += q_%d; }', 'ID(gi) = TWO(gj +, %d);', 'gd = %d.5 * %d;', 'gcs = "x%dy" "z";', 'ID(gv)();', 'while (gi > %d) gi -= 1 SEMI'])
         out.append(Line(t.replace('%d', str(k)), 'filler'))
+        if scope == 'file' and r.random() < 0.2 and not (plain_first and i == 0):
+            # a function-like macro name and its '(' on different logical lines: markers and directives may come between them
+            out.append(Line(r.choice(['ID', 'TWO']), 'filler'))
+            out.append(Line('(extern int e2_%d; , extern int e3_%d;)' % (k, k) if out[-1].text == 'TWO' else '(extern int e4_%d;)' % k, 'filler'))
     return out
 
 
@@ -147,21 +151,27 @@ def gap_decoration(r, rn, directive, level):
 
 def marker(r, rn):
     """a directive that resets the presumed location; applies it to the renderer"""
-    n = r.choice([1, 2, 7, 99, 100, 1000, 32767, 65536, 2147483000, r.randrange(1, 100000)])
+    n = r.choice([1, 2, 7, 99, 100, 1000, 32767, 65536, 2147483000, 2147483647, 2147483646, 4294967290, r.randrange(1, 100000)])
+    ns = r.choice(['%d', '%d', '%d', '0%d', '000%d', '%d'])      # a digit sequence is decimal whatever its leading zeros
     f = r.choice(FILENAMES)
-    c = r.randrange(6)
+    c = r.randrange(8)
+    d = ns % n
     if c == 0:
-        s, nf = '#line %d' % n, None
+        s, nf = '#line %s' % d, None
     elif c == 1:
-        s, nf = '#line %d "%s"' % (n, f), f
+        s, nf = '#line %s "%s"' % (d, f), f
     elif c == 2:
-        s, nf = '# %d "%s"' % (n, f), f
+        s, nf = '# %s "%s"' % (d, f), f
     elif c == 3:
-        s, nf = '# %d "%s" %s' % (n, f, r.choice(['1', '2', '3', '1 3', '2 3 4', '3 4'])), f
+        s, nf = '# %s "%s" %s' % (d, f, r.choice(['1', '2', '3', '1 3', '2 3 4', '3 4'])), f
     elif c == 4:
-        s, nf = '  #  line  %d  "%s"  ' % (n, f), f
+        s, nf = '  #  line  %s  "%s"  ' % (d, f), f
+    elif c == 5:
+        s, nf = '#line %s /* to\nbe continued */ "%s"' % (d, f), f
+    elif c == 6:
+        s, nf = '#line \\\n %s \\\n "%s"' % (d, f), f
     else:
-        s, nf = '#line %d /* to\nbe continued */ "%s"' % (n, f), f
+        s, nf = '# %s /* c\n c */ "%s" /* d\n */ 2' % (d, f), f
     rn.emit(s + '\n')
     rn.setloc(n, nf)
 
